@@ -706,9 +706,6 @@ func TestC07(t *testing.T) {
 	if os.Getenv("VERIF_RACE") == "1" {
 		n = r.Pick(600, 4000)
 	}
-	if os.Getenv("C07_ONLY") == "tcp" { // development aid
-		n = 0
-	}
 	cases := make([]*caseSpec, n)
 	for i := range cases {
 		cases[i] = genCase(r.Rand(1, uint64(i)), i, !r.Quick(), true)
